@@ -170,7 +170,12 @@ def run_case(spec):
         sz = [int(rng.integers(1, 3)) for _ in range(nb)]
         nb2 = int(rng.integers(1, 4))
         sz2 = [int(rng.integers(1, 3)) for _ in range(nb2)]
-        X = Factor(rng, sz2, sz, n_inf, False, False, False, log, "X", p_zero)
+        # like the library's own U = one + U': square factors may carry the `one` sentinel at order zero
+        with_one = bool(rng.random() < 0.5)
+        if with_one:
+            nb2, sz2 = nb, list(sz)
+        X = Factor(rng, sz2, sz, n_inf, False, with_one, False, log, "X", p_zero)
+        counters["hermitian_with_one"] += int(X.has_one)
 
         def adj_series(F, name):
             def ev(*idx):
@@ -183,12 +188,15 @@ def run_case(spec):
             return A
 
         def herm_series(name, sizes_):
-            base = Factor(rng, sizes_, sizes_, n_inf, True, False, False, log, name + "_raw", p_zero)
+            base = Factor(rng, sizes_, sizes_, n_inf, True, with_one, False, log, name + "_raw", p_zero)
+            counters["hermitian_with_one"] += int(base.has_one)
 
             def ev(*idx):
                 i, j, *n = idx
                 a = base.series[(i, j, *n)]
                 b = base.series[(j, i, *n)]
+                if a is one or b is one:  # only at order zero on the diagonal, where both are `one`
+                    return one
                 a = None if a is zero else a
                 b = None if b is zero else np.asarray(b).conj().T
                 if a is None and b is None:
@@ -328,7 +336,7 @@ def run_case(spec):
 def finalize(c, tier, evaluations, distinct):
     reasons = []
     need = dict(elements_compared=5000, multi_term_elements=1000, hermitian_flag_pairs=500, recurrence_elements=500,
-                factor_evals_logged=5000, product_checked=1000, one_results=20, hermitian_mode0=20, hermitian_mode1=20, hermitian_mode2=20)
+                factor_evals_logged=5000, product_checked=1000, one_results=20, hermitian_with_one=20, hermitian_mode0=20, hermitian_mode1=20, hermitian_mode2=20)
     for k, v in need.items():
         if c.get(k, 0) < v:
             reasons.append(f"{k} observed only {c.get(k, 0)} times (< {v})")
